@@ -113,8 +113,31 @@ theorem custom_iff_not_lib (n : Name) : (parseLibName n).libType = .custom ↔ i
   · have : isLibName n ≠ true := fun hl => by rw [(isLibName_iff n).1 hl] at h; cases h
     simp [h, this]
 
+/-- the test the repaired finder makes on a part is the spec's "plain file name" -/
+theorem validPart_eq_plainSegment (s : Name) : validPart s = plainSegment s := by
+  unfold validPart plainSegment
+  split
+  · rfl
+  · rfl
+  · rfl
+  · rename_i h1 h2 h3
+    have e1 : (s == []) = false := by cases s <;> simp_all
+    have e2 : (s == dot) = false := by
+      apply Bool.eq_false_iff.2; intro h; exact h2 (by simpa [dot] using h)
+    have e3 : (s == dotdot) = false := by
+      apply Bool.eq_false_iff.2; intro h; exact h3 (by simpa [dotdot] using h)
+    rw [e1, e2, e3]
+    simp [chSlash, chBackslash]
+
+theorem validParts_eq_plainName (n : Name) : validParts (splitOn chDash n) = plainName n := by
+  unfold validParts plainName
+  rw [segments_eq_splitOn]
+  congr 1
+  funext s
+  exact validPart_eq_plainSegment s
+
 theorem resolve_custom {n : Name} (h : (parseLibName n).libType = .custom) :
-    resolve n = .file (withExt (segments n)) := by
+    resolve n = if plainName n then .file (withExt (segments n)) else .nothing := by
   have hl := (custom_iff_not_lib n).1 h
   unfold resolve
   unfold isLibName at hl
@@ -132,25 +155,72 @@ theorem parseLibName_custom_path {n : Name} (h : (parseLibName n).libType = .cus
     · simp [hc] at h
     · simp [hc]
 
-/-- the finder looks the module up at the path the spec prescribes -/
+/-- what the repaired `LoadFile` does with a custom name: rejected unless every part is plain, else the literal path -/
+theorem resolveParts_custom {n : Name} (h : (parseLibName n).libType = .custom) :
+    resolveParts .repaired (parseLibName n).libPath =
+      if plainName n then .path (withExt (segments n)) else .rejected := by
+  unfold resolveParts
+  dsimp only
+  rw [parseLibName_custom_path h, validParts_eq_plainName, addZn_eq_withExt _ (splitOn_ne_nil _ _), segments_eq_splitOn]
+
+theorem resolveName_custom {n : Name} (h : (parseLibName n).libType = .custom) :
+    resolveName .repaired n = if plainName n then some (withExt (segments n)) else none := by
+  unfold resolveName
+  rw [h]
+  dsimp only
+  rw [resolveParts_custom h]
+  cases plainName n <;> rfl
+
+theorem resolveName_std {v : Variant} {n : Name} (h : (parseLibName n).libType = .std) : resolveName v n = none := by
+  unfold resolveName
+  rw [h]
+
+/-- the finder rejects a name that is not plain and looks a plain one up at the path the spec prescribes -/
 theorem finder_custom (files : Files) {n : Name} (h : (parseLibName n).libType = .custom) :
-    finder files (parseLibName n) =
-      match assoc (withExt (segments n)) files with
-      | some s => .src s
-      | none => .notFound := by
+    finder .repaired files (parseLibName n) =
+      if plainName n then
+        match assoc (withExt (segments n)) files with
+        | some s => .src s
+        | none => .notFound
+      else .notFound := by
   unfold finder
   rw [h]
   dsimp only
-  rw [parseLibName_custom_path h, addZn_eq_withExt _ (splitOn_ne_nil _ _), segments_eq_splitOn]
-  dsimp only
-  cases assoc (withExt (splitOn chDash n)) files <;> rfl
+  rw [resolveParts_custom h]
+  cases plainName n
+  · rfl
+  · simp only [if_true]
+    cases assoc (withExt (segments n)) files <;> rfl
 
 theorem msrc_named (files : Files) (mainSrc : ModuleSrc) (mainPath : Path) {n : Name} (hne : n ≠ mainName)
     (h : (parseLibName n).libType = .custom) : msrc files mainSrc n = sourceOf files mainPath (.named n) := by
   unfold msrc
   rw [if_neg hne, finder_custom files h]
   simp only [sourceOf, resolve_custom h]
-  cases assoc (withExt (segments n)) files <;> rfl
+  cases plainName n
+  · rfl
+  · simp only [if_true]
+    cases assoc (withExt (segments n)) files <;> rfl
+
+/-- a module the loader has a source for (other than the main module) has a plain name, and its source is the table's
+    entry at the path of that name -/
+theorem msrc_plain {files : Files} {mainSrc : ModuleSrc} {n : Name} {s : ModuleSrc} (hne : n ≠ mainName)
+    (h : msrc files mainSrc n = some s) :
+    (parseLibName n).libType = .custom ∧ plainName n = true ∧ assoc (withExt (segments n)) files = some s := by
+  unfold msrc at h
+  simp only [hne, if_false] at h
+  rcases libType_cases n with hty | hty
+  · have : finder .repaired files (parseLibName n) = .emptySrc := by unfold finder; rw [hty]
+    rw [this] at h; simp at h
+  · rw [finder_custom files hty] at h
+    cases hp : plainName n with
+    | false => rw [hp] at h; simp at h
+    | true =>
+      rw [hp] at h
+      simp only [if_true] at h
+      cases hs : assoc (withExt (segments n)) files with
+      | none => rw [hs] at h; simp at h
+      | some s' => rw [hs] at h; simp at h; subst h; exact ⟨hty, rfl, rfl⟩
 
 /-! ### static relation: model terms ↔ spec terms -/
 
@@ -162,17 +232,10 @@ def NoReserved (files : Files) : Prop :=
 
 theorem msrc_mem_files {files : Files} {mainSrc : ModuleSrc} {mainPath : Path} (hmain : assoc mainPath files = some mainSrc)
     {n : Name} {s : ModuleSrc} (h : msrc files mainSrc n = some s) : ∃ p, (p, s) ∈ files := by
-  unfold msrc at h
   by_cases hn : n = mainName
-  · simp [hn] at h; subst h; exact ⟨mainPath, assoc_mem hmain⟩
-  · simp only [hn, if_false] at h
-    rcases libType_cases n with hty | hty
-    · have : finder files (parseLibName n) = .emptySrc := by unfold finder; rw [hty]
-      rw [this] at h; simp at h
-    · rw [finder_custom files hty] at h
-      cases hs : assoc (withExt (segments n)) files with
-      | none => rw [hs] at h; simp at h
-      | some s' => rw [hs] at h; simp at h; subst h; exact ⟨_, assoc_mem hs⟩
+  · unfold msrc at h
+    simp [hn] at h; subst h; exact ⟨mainPath, assoc_mem hmain⟩
+  · exact ⟨_, assoc_mem (msrc_plain hn h).2.2⟩
 
 theorem msrc_eq_sourceOf {files : Files} {mainSrc : ModuleSrc} {mainPath : Path}
     (hmain : assoc mainPath files = some mainSrc) {n : Name} (hc : (parseLibName n).libType = .custom) :
